@@ -4,6 +4,7 @@ import math
 from fractions import Fraction as F
 from .core import fr, frs, dhex
 from .runner import Case
+from . import props_mixed
 
 GROUP = dict(name='alg', sources=['h_alg.cpp'], repo_sources=['util/Pauli.C'], driver='alg')
 
@@ -149,6 +150,7 @@ def gen_C03(g, tier):
 
 C03 = dict(
     id='C03', module='EpsicProofs.Props.C03', gen=gen_C03,
+    extra=[(props_mixed.GROUP, lambda g, tier: props_mixed.gen_mixed(g, tier, ['mp.quat', 'mp.biquat', 'mp.pauli']))],
     rule='exact-rational arguments: all 64 pairs of biquaternion basis elements {e_k, i e_k} (complete for the bilinear '
          'products), all basis units through every unary map, special values (zero, pure scalar, pure vector, null, singular), '
          'and seeded random rationals of mixed magnitude; a case is non-trivial when its protocol line is distinct',
@@ -230,6 +232,7 @@ def gen_C04(g, tier):
 
 C04 = dict(
     id='C04', module='EpsicProofs.Props.C04', gen=gen_C04,
+    extra=[(props_mixed.GROUP, lambda g, tier: props_mixed.gen_mixed(g, tier, ['mp.jones', 'mp.jonesc']))],
     rule='exact-rational Jones matrices: all 64 pairs of basis matrices {E_ij, i E_ij}, special values (zero, identity, '
          'scalar, diagonal, singular, nilpotent, Hermitian, traceless, mixed 2^±60..80 scales), every index through every '
          'accessor (operator[], operator(), DatumTraits, const and mutable), p() on inputs with rational roots, seeded random',
@@ -275,6 +278,7 @@ def gen_C15(g, tier):
 
 C15 = dict(
     id='C15', module='EpsicProofs.Props.C15', gen=gen_C15,
+    extra=[(props_mixed.GROUP, lambda g, tier: props_mixed.gen_mixed(g, tier, ['mp.minkowski']))],
     rule='exact-rational four-vectors: all 16 unit-vector pairs (64 triples for bilinearity; complete for bilinear forms), '
          'special vectors (zero, null, unpolarised, negative intensity), seeded random rationals',
     trusted=['GMP exact rationals'],
